@@ -14,18 +14,18 @@ package packet
 //@      || strcontains(errmsg(err), "use of closed file")
 
 //@ func isTemporaryError
-//@   props C20 C03 C06 C16 C12
+//@   props C20 C03 C06 C16 C12 C11
 //@   requires err != nil
 //@   ensures ret <==> transient(err)
 
 //@ func isUnrecoverableError
-//@   props C20 C03 C06 C16 C12
+//@   props C20 C03 C06 C16 C12 C11
 //@   requires err != nil
 //@   ensures ret <==> broken(err)
 
 // Decision table of one iteration of the receive loop (oracle: the statement of C20).
 //@ func (*receiver).ReceivePackets$1
-//@   props C20 C12 C16 C03 C06
+//@   props C20 C12 C16 C03 C06 C11
 //@   observe ReadPacketData, ProcessPacketData, time.Sleep
 //@   loop 0 row cancel:        [ctxdone ; close errc] -> exit
 //@   loop 0 row frame_ok:      [call ReadPacketData() as (data, ci, err) ; call ProcessPacketData(_, data, ci) as (perr)] when err == nil && perr == nil -> continue
@@ -82,18 +82,18 @@ package packet
 //@   props C07 C01 C05 C11 C13 C15 C16 C19 C12
 //@   ensures isptr(ret, sender) && asptr(ret, sender).w == w
 //@ func NewReceiver
-//@   props C20 C06 C03 C16 C12
+//@   props C20 C06 C03 C16 C12 C11
 //@   ensures isptr(ret, receiver) && asptr(ret, receiver).sr == sr && asptr(ret, receiver).p == p
 //@ func (*sender).SendPackets
 //@   props C07 C12 C16 C19 C01 C05 C11 C13 C15
 //@   entry row start: [go (*sender).SendPackets$1{done: bind_d, errc: bind_e, in: bind_i, ctx: bind_c, s: bind_s2}] when ret0 == d && ret1 == e && i == in && c == ctx && s2 == s && d != e && chancap(e) >= 100 -> exit
 //@ func (*receiver).ReceivePackets
-//@   props C20 C12 C16 C03 C06
+//@   props C20 C12 C16 C03 C06 C11
 //@   entry row start: [go (*receiver).ReceivePackets$1{errc: bind_e, ctx: bind_c, r: bind_r2}] when ret == e && c == ctx && r2 == r && chancap(e) >= 100 -> exit
 
 // the rate-limited socket reads straight from the wrapped socket: the method is the embedded one (no charge, no
 // delay, frames and errors unchanged)
 //@ func (*rateLimitReadWriter).ReadPacketData
-//@   props C20 C16 C15 C06 C03 C12
+//@   props C20 C16 C15 C06 C03 C12 C11
 //@   observe ReadPacketData
 //@   entry row passthrough: [call ReadPacketData(recv.ReadWriter) as (d, ci, e)] when ret0 == d && ret1 == ci && ret2 == e -> exit
